@@ -491,9 +491,11 @@ pub fn stream_cost(opt: &HashMap<String, String>) -> i32 {
         let wide = rng.below(5) != 0;
         let cap: u64 = match (wide, thorough) { (true, false) => 44, (true, true) => 90, (false, false) => 10, (false, true) => 14 };
         let n = if i % 9 == 0 { rng.below(5) } else { rng.range(8.min(cap), cap) };
-        let fam = ["sorted", "revsorted", "allequal", "lattice", "collinear", "uniform", "neartie", "duppoints", "euclid", "staircase", "rowconst", "tiechain"][rng.below(12) as usize];
+        let fam = ["sorted", "revsorted", "allequal", "lattice", "collinear", "uniform", "neartie", "duppoints", "euclid", "staircase", "rowconst", "tiechain", "hugechain"][rng.below(13) as usize];
+        // next to the largest finite value Ward's squares overflow (outside its domain)
+        let fam = if fam == "hugechain" && method == 4 { "collinear" } else { fam };
         let v = matrix_f64(&mut rng, n as usize, fam, wide);
-        cases.push(AlgoCase { algo, method, wide, n, bits: to_bits(&v, wide), family: FAMILIES.iter().find(|&&f| f == fam).unwrap() });
+        cases.push(AlgoCase { algo, method, wide, n, bits: to_bits(&v, wide), family: FAMILIES.iter().chain(SPECIAL_FAMILIES.iter()).find(|&&f| f == fam).unwrap() });
     }
     let mut order: Vec<usize> = (0..cases.len()).collect();
     order.sort_by_key(|&i| std::cmp::Reverse(cases[i].model_cost()));
